@@ -652,6 +652,25 @@ class Unit:
                 loops.append({'kind': t.text, 'kw': j, 'body': b, 'in': in_tok})
             j += 1
         rec.loops = [l['kind'] for l in loops]
+        # R6: `for P in &mut E` / `for P in &E`  ->  `E.iter_mut()` / `E.iter()` (this is how std defines IntoIterator for &mut Vec / &Vec)
+        for o in opts:
+            mm = re.match(r'r6:(\d+)$', o)
+            if not mm:
+                continue
+            n = int(mm.group(1))
+            if n >= len(loops) or loops[n]['kind'] != 'for' or loops[n]['in'] is None:
+                raise GenError('contract needs re-anchoring: R6 loop %d of %s is not a for loop' % (n, rec.selector))
+            L = loops[n]
+            seq = self.next_sig(toks, L['in'] + 1, L['body'], 2)
+            if not seq or toks[seq[0]].text != '&':
+                raise GenError('contract needs re-anchoring: R6 loop %d of %s does not iterate over a reference' % (n, rec.selector))
+            is_mut = len(seq) > 1 and toks[seq[1]].text == 'mut'
+            e_start = toks[seq[1]].end if is_mut else toks[seq[0]].end
+            # expression end = last non-ws token before body
+            e_end_tok = self.prev_sig(toks, L['body'], L['in'])
+            edits.append(Edit(toks[seq[0]].start, e_start, ''))
+            edits.append(Edit(toks[e_end_tok].end, toks[e_end_tok].end, '.iter_mut()' if is_mut else '.iter()', None, prio=-4))
+            cnt('R6')
         # R5: desugar `for P in E { B }` (body contains `continue`) into the reference `loop { match it.next() .. }` form
         for o in opts:
             mm = re.match(r'r5:(\d+)$', o)
